@@ -202,5 +202,7 @@ def run(ctx: Ctx, rep: Report, tier: str):
            "enum member and on True), every other event writes its existence flag through (C14.W11)", 1,
            lambda: (rep.rule("C04.tmp", "alias", 0), event_application_writes_through(ctx, rep, "C04.tmp")), keep=lambda i: i.key == "update_entry|exists")
     from rules.decisions import decision_table, table_sites
-    rep.rule("C04.R16", "decision table of delete handling and revival: every action site of delete_synced, the non-empty-folder path, the vanished-object paths and check_revivify is reached under exactly the recorded path condition and on the recorded side", table_sites("C04"))
-    section(rep, lambda: decision_table(ctx, rep, "C04.R16", "C04"))
+    rep.rule("C04.DT", "decision table (rules/decisions.json) of delete handling, the non-empty-folder path, the vanished-object paths and revival: for every function and every action shape (an impure call with the parameters it passes, a store to an "
+             "attribute or item, a delete, a returned constant, a yield, a raise) the set of states - over the function's guard atoms - in which the action is taken "
+             "equals the recorded one; compared as canonical decision diagrams, so any equivalent respelling of the guards is the same table", table_sites("C04"))
+    section(rep, lambda: decision_table(ctx, rep, "C04.DT", "C04"))
